@@ -4,7 +4,7 @@ From V.lib Require Import Base.
 From V.c13 Require Import C13Spec C13Model.
 From V.c17 Require Import C17Spec C17Model C17RbspProofs C17WriterProofs C17EbspProofs.
 From V.c17 Require Import C17TypedModel C17BitProofs C17TypedProofs C17FswProofs C17ComposeProofs.
-From V.c17 Require Import C17HistModel C17HistProofs.
+From V.c17 Require Import C17HistModel C17HistProofs C17CanonProofs.
 
 (* the 0xFF-run code of payload type (Go uint accumulator) and payload size (uint32
    accumulator) decodes to the value and leaves the rest of the input untouched: every value
@@ -179,7 +179,8 @@ Print Assumptions C17_timecode_in_nalu.
 (* A typed message value is the record of its exported fields (C17HistModel.typed); the Go values are
    reached through HISTORIES: a struct literal or a decoder (DecodeXxx, DecodeSEIMessage,
    avc/hevc.ParseSEINalu), then any number of steps: SEdit f (ANY change of the exported fields),
-   SCopy (struct copy), SRedecode (serialise, decode, go on with the result).
+   SCopy (struct copy), SObserve (Size()/Payload()/String()/WriteSEIMessages called, result dropped),
+   SRedecode (serialise, decode, go on with the result).
    Size()/Payload()/the written NAL unit depend on the final exported field record only: equal field
    records, whatever histories produced them, give equal observables.  Definitional in the model;
    this is the statement the correspondence (H lines: observables of the final Go value of a generated
@@ -218,6 +219,26 @@ Theorem C17_typed_in_nalu : forall t pre post,
 Proof. exact typed_in_nalu. Qed.
 Print Assumptions C17_typed_in_nalu.
 
+(* whatever a typed decoder returns is canonical (external parameters: 5-bit length fields) *)
+Theorem C17_decoded_is_canonical : forall like pl t,
+  like_ok like = true -> bytes_ok pl = true ->
+  typed_decode_like like pl = Ok t -> typed_canonical t = true.
+Proof. exact decode_canonical. Qed.
+Print Assumptions C17_decoded_is_canonical.
+
+(* the multi-step history start to end: decode ANY payload the decoder accepts, then any steps
+   (canonical-preserving edits, struct copies, serialiser calls, re-decodes): no error on the way,
+   the final value is the edits applied to the decoded value, and it round-trips *)
+Theorem C17_decoded_history_roundtrip : forall like pl t0 ss,
+  like_ok like = true -> bytes_ok pl = true -> typed_decode_like like pl = Ok t0 ->
+  Forall step_keeps_canonical ss ->
+  let t := apply_edits ss t0 in
+  run_history (ODecode like pl) ss = Ok t /\ typed_canonical t = true /\
+  typed_decode_like t (typed_payload t) = Ok t /\ lenN (typed_payload t) = typed_size t /\
+  extract_sei_data (write_sei_messages [typed_msg t]) = XOk [(typed_type t, typed_payload t)].
+Proof. exact decoded_history_roundtrip. Qed.
+Print Assumptions C17_decoded_history_roundtrip.
+
 (* a history of the kind the seeded change breaks: decode a picture timing message, copy it, change
    NFrames and pict_struct of the copy, re-decode: the final value is canonical and its payload is the
    serialisation of the EDITED fields (28 00 4d 00), not the decoded bytes (08 80 05 00) *)
@@ -228,6 +249,22 @@ Example C17_history_hyp :
                  TPicTiming (mkPT h tl 2 [mkClockAvc true (a_cttype c) false 0 false false false 77 false 0 false 0 false 0 0 0%Z])
              | _ => t
              end in
-  exists t, run_history (ODecode like [8; 128; 5; 0]) [SCopy; SEdit f; SRedecode] = Ok t /\
+  exists t, run_history (ODecode like [8; 128; 5; 0]) [SCopy; SObserve; SEdit f; SRedecode] = Ok t /\
             typed_canonical t = true /\ typed_payload t = [40; 0; 77; 0].
 Proof. eexists. split; [vm_compute; reflexivity|]. split; vm_compute; reflexivity. Qed.
+
+(* the hypotheses of C17_decoded_history_roundtrip are satisfiable: a content light level message
+   decoded from 01 02 03 04, copied, its two fields swapped, serialised, decoded again *)
+Example C17_decoded_history_hyp :
+  let f t := match t with TCll m => TCll (mkCll (cl_avg m) (cl_max m)) | _ => t end in
+  like_ok (TCll (mkCll 0 0)) = true /\ bytes_ok [1; 2; 3; 4] = true /\
+  typed_decode_like (TCll (mkCll 0 0)) [1; 2; 3; 4] = Ok (TCll (mkCll 258 772)) /\
+  Forall step_keeps_canonical [SCopy; SEdit f; SObserve; SRedecode] /\
+  typed_payload (apply_edits [SCopy; SEdit f; SObserve; SRedecode] (TCll (mkCll 258 772))) = [3; 4; 1; 2].
+Proof.
+  cbv zeta. split; [reflexivity|]. split; [reflexivity|]. split; [vm_compute; reflexivity|].
+  split; [|vm_compute; reflexivity].
+  apply Forall_cons; [exact I|]. apply Forall_cons; [|apply Forall_cons; [exact I|apply Forall_cons; [exact I|apply Forall_nil]]].
+  intros t H. destruct t as [cs|m|m|m]; try exact H.
+  cbn [typed_canonical] in *. unfold cll_canonical in *. cbn [cl_max cl_avg]. rewrite andb_comm. exact H.
+Qed.
